@@ -4,7 +4,7 @@
   Request:  {"op":"c18","docs":[{"raw":…,"safe":bool?,"src":str?},…]}
   Answer:   {"ok":[R,…]} one per document, or {"err":…} when a document does not parse;
             R = {"tree": node,                      -- construct env raw
-                 "dump": {"raw": Raw} | {"err": "noMetadataForm"},
+                 "dump": {"raw": Raw},                -- represent tree (the dump always exists)
                  "tree2": node | {"err":…},         -- construct env (represent tree)       (when dump ok)
                  "dump2": {"raw": Raw} | {"err":…}} -- represent tree2                      (when tree2 ok)
             Raw is encoded in the request format (`s`/`q`/`m`, `t`, `kw`).
@@ -70,21 +70,13 @@ partial def rawJ : Raw → Json
   | .seq t kw items => withTagKw t kw [("q", .arr (items.map rawJ).toArray)]
   | .map t kw items => withTagKw t kw [("m", .arr (items.map (fun kv => Json.arr #[keyJ kv.1, rawJ kv.2])).toArray)]
 
-def dumpErrJ : DumpErr → Json
-  | .noMetadataForm => Json.mkObj [("err", .str "noMetadataForm")]
-
-def dumpJ (n : Node) : Json :=
-  match represent n with
-  | .error e => dumpErrJ e
-  | .ok r => Json.mkObj [("raw", rawJ r)]
+def dumpJ (n : Node) : Json := Json.mkObj [("raw", rawJ (represent n))]
 
 def resultJ (env : Env) (n : Node) : Json :=
-  match represent n with
-  | .error e => Json.mkObj [("tree", nodeJ n), ("dump", dumpErrJ e)]
-  | .ok r =>
-    match construct env r with
-    | .error e => Json.mkObj [("tree", nodeJ n), ("dump", Json.mkObj [("raw", rawJ r)]), ("tree2", errJ e)]
-    | .ok n2 => Json.mkObj [("tree", nodeJ n), ("dump", Json.mkObj [("raw", rawJ r)]), ("tree2", nodeJ n2), ("dump2", dumpJ n2)]
+  let r := represent n
+  match construct env r with
+  | .error e => Json.mkObj [("tree", nodeJ n), ("dump", Json.mkObj [("raw", rawJ r)]), ("tree2", errJ e)]
+  | .ok n2 => Json.mkObj [("tree", nodeJ n), ("dump", Json.mkObj [("raw", rawJ r)]), ("tree2", nodeJ n2), ("dump2", dumpJ n2)]
 
 def results : List (Env × Raw) → Except Err (List Json)
   | [] => .ok []
